@@ -53,6 +53,8 @@ type Sched struct {
 
 	StepCnt  int
 	Switches int
+	SchedLog []string // when non-nil: one line per step (debugging the simulator itself)
+	LogSched bool
 	Panics   []string
 	poison   atomic.Bool
 	uuidCtr  uint64
@@ -364,6 +366,16 @@ func (s *Sched) Loop(d Driver, maxSteps int, idleHorizon time.Duration) error {
 			s.parked = append(s.parked, cands...)
 			s.mu.Unlock()
 			return ErrStepBudget
+		}
+		if s.LogSched {
+			var names []string
+			for _, c := range cands {
+				names = append(names, fmt.Sprintf("%d:%s", c.ID, c.Name))
+			}
+			for _, e := range due {
+				names = append(names, "ev:"+e.Name)
+			}
+			s.SchedLog = append(s.SchedLog, fmt.Sprintf("%d t=%v k=%d %v", s.StepCnt, time.Now().UnixNano(), k, names))
 		}
 		if k < len(cands) {
 			t := cands[k]
